@@ -185,6 +185,9 @@ def rule_pairing(ck):
     # the pairing site: a subscript/add.at combining a spatial index and a magnitude index
     spat = [n for n in all_nodes(f) if isinstance(n, ast.Call) and isinstance(n.func, ast.Attribute) and n.func.attr == 'get_index_of']
     mags = calls_in(P, f, sentinel.BIN)
+    if not mags:
+        # the magnitude index may come from a method that hands back the kernel's result (get_mag_idx)
+        mags = [c for nm, c in sentinel.Taint(P, f).tainted.items()]
     o = ck.ob('C03-D3.pair', f, 'cell index and magnitude index are paired positionally', f.node)
     if not spat or not mags:
         o.unknown('cannot find the spatial and the magnitude lookup')
@@ -364,4 +367,12 @@ def find_assignments_local(f, name):
     return find_assignments(f, name)
 
 
-RULES = [rule_mag_sentinel, rule_accumulation, rule_pairing, rule_axes, rule_spatial_rejection, rule_pure_gridding]
+def rule_binning_shared(ck):
+    """the histogram and the space-magnitude counts place a magnitude where bin1d_vec places it: same kernel, same mode, and the values
+    handed over as they are stored (shared C02-D4.mag / .coord / .kernel / .sibling / .asstored)"""
+    from . import c02
+    ck.clause('D1 (shared C02-D4: every magnitude / coordinate is binned by the kernel, in its stored type, in the right mode)')
+    c02.rule_callsites(ck)
+
+
+RULES = [rule_mag_sentinel, rule_accumulation, rule_pairing, rule_axes, rule_spatial_rejection, rule_pure_gridding, rule_binning_shared]
